@@ -43,6 +43,7 @@ SPECS = {
     "enc-tables": ("Ec", lambda t: ["enc-tables"], "TextEncoding::{encode_strict, encode, decode} on every one-char string / one-byte slice vs Annex D"),
     "lru": ("Eb", lambda t: ["lru", "8" if t == "thorough" else "6"], "LruCache vs abstract LRU model: every get/put history (bounded) over 4 keys, capacities 0..=4"),
     "labels": ("Eb", lambda t: ["labels", "20000" if t == "thorough" else "5000"], "decimal/roman format(n) vs reference formatters; PageLabel/PageLabelTree::to_dict read by an independent object-level reader"),
+    "content": ("Eb", lambda t: ["content", "4" if t == "thorough" else "3"], "API -> content stream -> ContentParser::parse_strict: show-text operands and f64 operands with NaN/inf"),
     "letters": ("Eb", lambda t: ["letters", "20000" if t == "thorough" else "5000"], "PageLabelStyle letters format(n) vs ISO and vs bijective base-26"),
 }
 
